@@ -54,10 +54,10 @@ partial def encodeVal : Val → String
   | .map kvs =>
     let ents := (kvs.map (fun kv => "(" ++ encodeVal kv.1 ++ " " ++ encodeVal kv.2 ++ ")")).toArray.qsort (· < ·)
     "(m" ++ String.join (ents.toList.map (fun e => " " ++ e)) ++ ")"
-  | .fn id => s!"(fn {id})"
-  | .gofn n => s!"(gofn {n})"
+  | .fn _ => "(fn 0)"          -- function identity is not observable across the protocol
+  | .gofn _ => "(fn 0)"
   | .err m => if m.isEmpty then "(err)" else s!"(err {hexBytes m.toUTF8.toList})"
-  | .env id => s!"(env {id})"
+  | .env _ => "(env)"
 
 def encodeRV (r : RV) : String := if r.ity && r.v.kind != .iface then "(w " ++ encodeVal r.v ++ ")" else encodeVal r.v
 
